@@ -10,14 +10,15 @@ import common
 import corechecks
 
 THEOREMS = ['C01_invariant', 'C01_step', 'C01_association', 'C01_partition', 'C01_nodupFast']
-MODULE = [('NautilusVerif.Properties.C01', THEOREMS), ('NautilusVerif.Properties.CoreRun', ['Run_phase', 'C01_run'])]
+MODULE = [('NautilusVerif.Properties.C01', THEOREMS), ('NautilusVerif.Properties.CoreRun', ['Run_phase', 'C01_run']),
+          ('NautilusVerif.Properties.CoreTie', ['Core_tie_addBound', 'Core_tie_addSamples', 'Core_tie_sampleShell', 'Core_tie_shellAssociation'])]
 FILES = ['nautilus/sampler.py']
 INVARIANTS = ['inshells', 'tlast', 'nodup', 'run']
 
 
 def run(chk):
     chk.extra['source_digest'] = common.source_digest(FILES)
-    chk.prove(MODULE, None)
+    chk.prove(MODULE, None, {'NautilusVerif/Generated/CoreSrc.lean': __import__('gen_core').generate(common.REPO)[0]})
     if chk.tier == 'thorough':
         chk.leanchecker([m for m, _ in MODULE])
     results = corechecks.run_all(chk.tier, chk.seed)
